@@ -196,6 +196,32 @@ func TestCorpusC17(t *testing.T) {
 		c17Run(c17Case{"rego_extensions " + strconv.Quote(ext), p, baseData}, sigs)
 		n++
 	}
+	// mappings that repeat a key (yaml.v3 keeps both entries), and one validation with many quantified constraints
+	for _, body := range []string{
+		"prefixes:\n  ex: http://example.org/a#\n  ex: http://example.org/b#\nvalidations:\n  v1:\n    targetClass: ex.T\n    propertyConstraints:\n      ex.p:\n        minCount: 1\n",
+		"validations:\n  v1:\n    targetClass: apiContract.WebAPI\n    propertyConstraints:\n      core.name:\n        minCount: 1\n      core.name:\n        maxCount: 2\n      core.name:\n        pattern: a\n",
+		"validations:\n  v1:\n    targetClass: apiContract.WebAPI\n    targetClass: apiContract.EndPoint\n    message: a\n    message: b\n    propertyConstraints:\n      core.name:\n        minCount: 1\n        minCount: 2\n",
+		"validations:\n  v1:\n    targetClass: apiContract.WebAPI\n    propertyConstraints:\n      core.name:\n        minCount: 1\n  v1:\n    targetClass: apiContract.WebAPI\n    propertyConstraints:\n      core.name:\n        maxCount: 1\n",
+		"violation:\n  - v1\nvalidations:\n  v1:\n    targetClass: apiContract.WebAPI\n    propertyConstraints:\n      core.name:\n        minCount: 1\n",
+	} {
+		p := "#%Validation Profile 1.0\nprofile: P\nviolation:\n  - v1\n" + body
+		c17Run(c17Case{"repeated key " + strconv.Quote(body), p, baseData}, sigs)
+		n++
+	}
+	for _, width := range []int{23, 24, 25, 26, 27, 40} {
+		p := "#%Validation Profile 1.0\nprofile: P\nviolation:\n  - v1\nvalidations:\n  v1:\n    targetClass: apiContract.WebAPI\n    message: m\n    propertyConstraints:\n"
+		for i := 0; i < width; i++ {
+			p += fmt.Sprintf("      apiContract.p%d:\n        nested:\n          propertyConstraints:\n            core.name:\n              minCount: 1\n", i)
+		}
+		c17Run(c17Case{fmt.Sprintf("one validation with %d nested constraints", width), p, baseData}, sigs)
+		n++
+	}
+	// custom rego the engine's own compiler panics on (a call in the domain of `every`: "unreachable" in its type checker)
+	for _, body := range []string{`every x in [lower("A")] { x == "a" }`, `every k, v in {"a": count([1])} { v == 1 }`, `every x in [http.send({"method": "get", "url": "http://127.0.0.1:1"})] { x == x }`} {
+		p := "#%Validation Profile 1.0\nprofile: P\nviolation:\n  - v1\nvalidations:\n  v1:\n    targetClass: apiContract.WebAPI\n    message: m\n    rego: |\n      " + body + "\n      $result = true\n"
+		c17Run(c17Case{"custom rego " + strconv.Quote(body), p, baseData}, sigs)
+		n++
+	}
 	for n < budget {
 		if r.Intn(2) == 0 && len(profiles) > 0 {
 			pf := profiles[r.Intn(len(profiles))]
